@@ -325,6 +325,34 @@ def run(ctx, rep):
         if not ok_b:
             rep.violation('R3.7b', vkey('R3.7b', FF.name, 'count-current-slot', ''), FF.loc(FF.span), why_b)
 
+    # ---------------- R3.10 a new cluster is terminated before it is linked into a chain
+    TA = facts.fns.get('fatfs::table::alloc_cluster')
+    if TA is None:
+        rep.machinery('ANCHOR-MISSING fatfs::table::alloc_cluster')
+    else:
+        dta = Deps(TA)
+        eoc, link = [], []
+        for b, t in TA.calls():
+            if not (t.get('callee') or '').endswith('table::write_fat') or len(t['args']) < 4:
+                continue
+            toks = dta.of_operand(t['args'][3])
+            if any(tk[0] == 'ctor' and tk[1].endswith('FatValue::EndOfChain') for tk in toks):
+                eoc.append(b)
+            if any(tk[0] == 'ctor' and tk[1].endswith('FatValue::Data') for tk in toks):
+                link.append(b)
+        ok = bool(eoc) and bool(link) and all(lb not in TA.reach_from([0], cut_blocks=eoc) for lb in link)
+        rep.oblige('R3.10', TA.name, ok=ok, nontrivial=True,
+                   sample={'fn': TA.name, 'end_of_chain_writes': len(eoc), 'link_writes': len(link),
+                           'rule': 'the write that links the predecessor to the new cluster is dominated by the write that marks '
+                                   'the new cluster end-of-chain'})
+        if not eoc or not link:
+            rep.machinery('ANCHOR table::alloc_cluster: end-of-chain / link writes not found (%d / %d)' % (len(eoc), len(link)))
+        elif not ok:
+            rep.violation('R3.10', vkey('R3.10', TA.name, 'terminate-before-link', ''), TA.loc(TA.span),
+                          'the predecessor is linked to the new cluster before the new cluster has been marked end-of-chain: if '
+                          'the second table write fails, a chain points at a cluster that is still free (and still the next '
+                          'allocation candidate), so two files end up sharing it')
+
     # ---------------- R3.8 truncate order
     CT = facts.fns.get('fatfs::table::ClusterIterator::truncate')
     if CT is None:
